@@ -869,7 +869,7 @@ func (r *run) Do(op string) string {
 					return 0, "full"
 				}
 				return x.id, "ok"
-			case <-time.After(5 * time.Second):
+			case <-time.After(60 * time.Second):
 				r.smHung = true
 				return 0, "hang"
 			}
@@ -1149,7 +1149,7 @@ func haStream(stream []byte) string {
 	select {
 	case x := <-done:
 		return x
-	case <-time.After(10 * time.Second):
+	case <-time.After(60 * time.Second):
 		return "hang"
 	}
 }
